@@ -1,5 +1,5 @@
 (* Case record and correspondence checker for connection-level runs (M1).  No proofs. *)
-From Passage Require Import Lib.Bytes Codec.VarInt Codec.Desc Gen.PacketsGen Gen.ConstsGen
+From Passage Require Import Lib.Bytes Spec.McLayout Codec.VarInt Codec.Desc Gen.PacketsGen Gen.ConstsGen
   Codec.PacketCheck Crypto.Cookie Conn.Types Conn.Prog Conn.Sem1 Conn.Sem2 Conn.Monitor Conn.Order Conn.Checks Conn.Reader.
 
 Record conn_case := {
@@ -70,11 +70,21 @@ Definition case_trace (c : conn_case) : trace :=
   run1 (case_oracles c) (cc_cfg c) (case_env c) (case_inbox c).
 
 (* projections of a trace *)
+(* the layout the protocol table (Spec/McLayout.v) gives a packet; falls back to the generated one *)
+Definition spec_kinds (p : packet) : list fk :=
+  match find_layout p mc_layout with
+  | Some l => match l_fields l with Some ks => ks | None => rkinds p end
+  | None => rkinds p
+  end.
+(* what the model writes: the generated descriptor; when the translator could not parse the
+   packet's impl any more, the protocol table (so that such cases are still compared) *)
+Definition mkinds (p : packet) : list fk := if p_parsed p then kinds p else spec_kinds p.
+
 Fixpoint tr_sent (tr : trace) : option (list (Z * Z * bytes)) :=
   match tr with
   | [] => Some []
   | (t, TSend p vs) :: r =>
-      match enc (kinds p) vs, tr_sent r with
+      match enc (mkinds p) vs, tr_sent r with
       | Some b, Some l => Some ((t, p_id p, b) :: l)
       | _, _ => None
       end
@@ -174,15 +184,26 @@ Definition cb_packet (status : bool) (config : bool) (id : Z) : packet :=
      else if id =? 5 then login_cb_CookieRequestPacket
      else unknown_packet).
 
+(* an observed clientbound packet is decoded by the protocol layout, not by the crate's own
+   reader, and must be canonical: re-encoding the decoded values gives back exactly the bytes
+   sent (a port written as a negative VarInt, a flag written as 2, an over-long VarInt are
+   what a real client would mis-read).  JSON-form text components are outside [enc]. *)
+Definition obs_decode (p : packet) (body : bytes) : tev :=
+  match dec vi vl (spec_kinds p) body with
+  | Ok vs [] =>
+      match enc (spec_kinds p) vs with
+      | Some b => if beq b body then TSend p vs else TSend unknown_packet []
+      | None => TSend p vs
+      end
+  | _ => TSend unknown_packet []
+  end.
+
 Fixpoint obs_sends (status config : bool) (l : list (Z * Z * bytes)) : list tev :=
   match l with
   | [] => []
   | (_, id, body) :: r =>
       let p := cb_packet status config id in
-      let ev := match dec vi vl (rkinds p) body with
-                | Ok vs [] => TSend p vs
-                | _ => TSend unknown_packet []
-                end in
+      let ev := obs_decode p body in
       ev :: obs_sends status (config || (negb status && (id =? 2))) r
   end.
 
@@ -340,7 +361,24 @@ Definition check_c10_pair (p : pair_case) : Z :=
 
 (* ---- C07 on the implementation's observation: keep-alive sends (with their times),
    the frames the client sent (arrival times), the timeout localisation call and the end ---- *)
-From Passage Require Import Conn.KeepAlive.
+From Passage Require Import Conn.KeepAlive Conn.KeepAliveWhole.
+
+(* the gap monitor (Conn/KeepAliveWhole.v) on an observation: results of raced calls are not
+   observable, so "the selection adapter has answered" is the first action after the select
+   call that only the continuation performs (a packet other than Keep Alive, a call, the end) *)
+Fixpoint c07g_obs (st : Z * option Z * bool) (sel : bool) (tr : trace) : bool :=
+  match tr with
+  | [] => true
+  | ev :: r =>
+      match c07g_step st ev with
+      | None => false
+      | Some (st', live') =>
+          let is_sel_call := match snd ev with TCall c => is_select c | _ => false end in
+          let closes := sel && match snd ev with
+                               | TSend p _ => negb (is_ka p) | TCall _ => true | TEnd _ => true | _ => false end in
+          c07g_obs (st', live' && negb closes) (sel || is_sel_call) r
+      end
+  end.
 
 Fixpoint merge_timed (a b : trace) (fuel : nat) : trace :=
   match fuel with
@@ -367,18 +405,17 @@ Definition obs_c07 (c : conn_case) : bool :=
           let frames := map (fun x => match x with
                                       | (t, IFrame id b) => (t, TRecv id b)
                                       | (t, _) => (t, TTick) end)
-                            (filter (fun x => tack <? fst x) (cc_inbox c)) in
+                            (filter (fun x => (tack <? fst x) && (fst x <=? cc_end c)) (cc_inbox c)) in
           let sends := map (fun x => match x with (t, id, body) =>
                               let p := cb_packet false true id in
-                              match dec vi vl (rkinds p) body with
-                              | Ok vs _ => (t, TSend p vs) | _ => (t, TSend unknown_packet []) end end)
+                              (t, obs_decode p body) end)
                            (filter (fun x => match x with (t, _, _) => tack <=? t end)
                                    (filter (fun x => match x with (_, id, _) => negb (id =? 2) || false end) (cc_sent c))) in
           let sends := filter (fun x => match snd x with TSend p _ => negb (is_pkt p login_cb_LoginSuccessPacket) | _ => true end) sends in
           let calls := map (fun x => (fst x, TCall (snd x))) (filter (fun x => tack <=? fst x) (cc_calls c)) in
           let n := (length frames + length sends + length calls + 2)%nat in
           let tr := merge_timed (merge_timed frames calls n) sends (2 * n) ++ [(cc_end c, TEnd (cc_outcome c))] in
-          match c07_run (tack, None) tr with Some _ => true | None => false end
+          c07g_obs (tack, None, true) false tr
       end
   end.
 
